@@ -244,6 +244,9 @@ def SyncRing.run (r : SyncRing) : List SOp → Option (SyncRing × List String)
 def SyncRing.dump (r : SyncRing) : String :=
   s!"h={r.head} t={r.tail} " ++ " ".intercalate (r.values.map fun s => s!"{s.pos}:{s.value}")
 
+/-- Capacities the harness does not run (the backing array would not fit in memory). -/
+def tooLargeToRun (c : Int) : Bool := 1048576 < c && c ≤ 2147483648
+
 def runSyncOps : Option SyncRing → List String → List String
   | _, [] => []
   | none, _ :: ls => "dead" :: runSyncOps none ls
@@ -256,6 +259,14 @@ def runSyncOps : Option SyncRing → List String → List String
         if r.isFresh then "ok" :: runSyncOps (some (r.warp k)) ls
         else "not-fresh" :: runSyncOps (some r) ls
     | ["dump"] => r.dump :: runSyncOps (some r) ls
+    | ["init", c] =>                             -- `r.Init(c)` on the existing ring
+      match c.toInt? with
+      | none => "bad-op" :: runSyncOps (some r) ls
+      | some c =>
+        if tooLargeToRun c then "bad-op" :: runSyncOps (some r) ls else
+        match SyncRing.init? c with
+        | none => "panic" :: runSyncOps none ls
+        | some r' => "ok" :: runSyncOps (some r') ls
     | ["pushwn", v] =>                           -- `PushWait(v, -1)`: spins until pushed
       match v.toInt? with
       | none => "bad-op" :: runSyncOps (some r) ls
@@ -274,9 +285,6 @@ def runSyncOps : Option SyncRing → List String → List String
         match r.step op with
         | none => "panic" :: runSyncOps none ls
         | some (r', out) => out :: runSyncOps (some r') ls
-
-/-- Capacities the harness does not run (the backing array would not fit in memory). -/
-def tooLargeToRun (c : Int) : Bool := 1048576 < c && c ≤ 2147483648
 
 def runSyncCase (hdr : List String) (ops : List String) : List String :=
   match hdr with
